@@ -102,11 +102,13 @@ def run_e2e(report, n_fonts, rng):
                     flat_a = [it for it, _ in picture.flatten(act)]
                     probs += match_shapes([it[1] for it in flat_e], [it[1] for it in flat_a], lambda: (base * 3 + extra) * su)
                 # base glyph bounds cover all layers
-                glyf_bounds = None
-                if "glyf" in font and act:
-                    bg = font["glyf"][g]
-                    if bg.numberOfContours != 0 and hasattr(bg, "xMin"):
-                        glyf_bounds = (bg.xMin, bg.yMin, bg.xMax, bg.yMax)
+                if act:
+                    # the base glyph's own extents (whatever the outline flavour) must cover every layer
+                    from fontTools.pens.boundsPen import ControlBoundsPen
+
+                    bp = ControlBoundsPen(glyphset)
+                    glyphset[g].draw(bp)
+                    glyf_bounds = bp.bounds
                     xs = [p[0] for it, _ in picture.flatten(act) for poly in it[1] for p in poly]
                     ys = [p[1] for it, _ in picture.flatten(act) for poly in it[1] for p in poly]
                     if glyf_bounds is None:
